@@ -25,7 +25,8 @@ var properties = map[string][]harnessSpec{
 		{Name: "op.VerifC14Laws", Marks: end},
 	},
 	"C15": {
-		{Name: "note.VerifC15Semitone", Quick: map[string]int{"C15.maxN": 64}, Thorough: map[string]int{"C15.maxN": 512}, Marks: end},
+		{Name: "note.VerifC15Semitone", Solver: "cvc5-int", Quick: map[string]int{"C15.maxN": 64}, Thorough: map[string]int{"C15.maxN": 4096}, Marks: end},
+		{Name: "note.VerifC15SemitoneUnbounded", Solver: "cvc5-int", Marks: end, MustTerminate: true},
 	},
 	"C01": {
 		{Name: "play.VerifC01Pitch", Quick: map[string]int{"C01.mode": 1, "C01.maxDegree": 15}, Thorough: map[string]int{"C01.mode": 0, "C01.maxDegree": 15}, Marks: []string{"end", "rejected", "same-order"}},
@@ -53,17 +54,36 @@ var properties = map[string][]harnessSpec{
 		{Name: "input/ast.VerifC04ScanToken", Quick: map[string]int{"C04.window": 5}, Thorough: map[string]int{"C04.window": 6}, Marks: []string{"end", "token", "eof"}, MustTerminate: true},
 		{Name: "input/ast.VerifC04ParseRunes", Quick: map[string]int{"C04.runes": 4}, Thorough: map[string]int{"C04.runes": 5}, Marks: []string{"end", "accepted", "rejected"}, MustTerminate: true},
 	},
+	"C09": {
+		{Name: "input/ast.VerifC04ScanToken", Quick: map[string]int{"C04.window": 4}, Thorough: map[string]int{"C04.window": 6}, Marks: end, MustTerminate: true},
+		{Name: "input/ast.VerifC04ParseRunes", Quick: map[string]int{"C04.runes": 3}, Thorough: map[string]int{"C04.runes": 5}, Marks: end, MustTerminate: true},
+		{Name: "op.VerifC09BPMField", Quick: map[string]int{"C09.maxLen": 3}, Thorough: map[string]int{"C09.maxLen": 5}, Marks: []string{"end", "accepted"}},
+		{Name: "op.VerifC09MeterField", Quick: map[string]int{"C09.maxLen": 3}, Thorough: map[string]int{"C09.maxLen": 5}, Marks: []string{"end", "accepted"}},
+		{Name: "op.VerifC09DynamicField", Quick: map[string]int{"C09.maxLen": 3}, Thorough: map[string]int{"C09.maxLen": 4}, Marks: []string{"end", "accepted"}},
+		{Name: "op.VerifC09KeyField", Quick: map[string]int{"C09.maxLen": 3}, Thorough: map[string]int{"C09.maxLen": 4}, Marks: []string{"end", "accepted"}},
+		{Name: "note.VerifC09ValueField", Quick: map[string]int{"C09.maxLen": 3}, Thorough: map[string]int{"C09.maxLen": 5}, Marks: []string{"end", "accepted"}},
+		{Name: "note.VerifC09NewValue", Marks: end},
+		{Name: "note.VerifC09DegreeField", Quick: map[string]int{"C09.maxLen": 2}, Thorough: map[string]int{"C09.maxLen": 3}, Marks: []string{"end", "accepted"}},
+		{Name: "note.VerifC15SemitoneUnbounded", Solver: "cvc5-int", Marks: end, MustTerminate: true},
+		{Name: "play.VerifC09WriteNoPanic", Quick: map[string]int{"C09.maxInstances": 1}, Thorough: map[string]int{"C09.maxInstances": 2}, Marks: []string{"end", "refused", "played"}},
+		{Name: "chord.VerifC16UserDict", Quick: map[string]int{"C16.maxUser": 2}, Thorough: map[string]int{"C16.maxUser": 3}, Marks: []string{"end", "rejected", "accepted"}, MustTerminate: true},
+	},
+	"C16": {
+		{Name: "chord.VerifC16Builtins", Marks: end},
+		{Name: "chord.VerifC16AttrNames", Marks: end},
+		{Name: "chord.VerifC16UserDict", Quick: map[string]int{"C16.maxUser": 2}, Thorough: map[string]int{"C16.maxUser": 3}, Marks: []string{"end", "rejected", "accepted"}, MustTerminate: true},
+	},
 	"C06": {
 		{Name: "midix.VerifC06AddStep", Quick: map[string]int{"C06.maxTracks": 8}, Thorough: map[string]int{"C06.maxTracks": 32}, Marks: end},
 		{Name: "midix.VerifC06TwoAdds", Quick: map[string]int{"C06.maxTracks2": 4}, Thorough: map[string]int{"C06.maxTracks2": 8}, Marks: end},
-		{Name: "midix.VerifC06Select", Quick: map[string]int{"C06.maxTracksSel": 8}, Thorough: map[string]int{"C06.maxTracksSel": 32}, Marks: end, TimeoutS: 60},
+		{Name: "midix.VerifC06Select", Solver: "cvc5-int", Quick: map[string]int{"C06.maxTracksSel": 32}, Thorough: map[string]int{"C06.maxTracksSel": 64}, Marks: end, TimeoutS: 60},
 		{Name: "midix.VerifC06SelectRejects", Marks: end},
 		{Name: "midix.VerifC06CloseStep", Quick: map[string]int{"C06.maxTracks": 8}, Thorough: map[string]int{"C06.maxTracks": 32}, Marks: end},
 	},
 }
 
 func init() {
-	for _, id := range []string{"C05", "C08", "C09", "C10", "C11", "C12", "C16", "C17"} {
+	for _, id := range []string{"C05", "C08", "C10", "C11", "C12", "C17"} {
 		notApplicable[id] = "check not built yet in this session (work in progress; see DESIGN.md section 4 for the plan)"
 	}
 }
